@@ -21,6 +21,7 @@
 #define DV_EXPORT __attribute__((visibility("default")))
 
 DV_EXPORT _dispatch_verif_atomic_cb_t _dispatch_verif_atomic_cb = 0;
+DV_EXPORT _dispatch_verif_atomic_cb_t _dispatch_verif_load_cb = 0;
 DV_EXPORT void (*_dispatch_verif_yield_cb)(const volatile void *addr,
 		const char *func, int line) = 0;
 
